@@ -23,6 +23,12 @@ ActFrames(c)  == {c[j] : j \in TopCallIdx(c)..Len(c)}
 \* an exception is propagating through a finally block of the current activation (exempt path)
 ExcPending(c) == \E f \in ActFrames(c) : f.k = "finally" /\ f.comp[1] = "exc"
 
+\* Reports: a monitor keeps the first MaxReports distinct violation reports of an execution (a later violation must not
+\* be hidden by an earlier, possibly already known, one); the monitors discharge what they reported so it is not repeated.
+MaxReports == 4
+Note(b, r) == IF r = "" \/ Len(b) >= MaxReports \/ r \in Range(b) THEN b ELSE Append(b, r)
+Reports0(r) == IF r = "" THEN <<>> ELSE <<r>>
+
 \* lexical ownership: compound statements (of the same function) enclosing n, n included if compound
 Anc(n) == IF n = 0 THEN {} ELSE Range(P.anc[n])
 Own(s) == {n \in 1..NNodes : s \in Anc(n)}
